@@ -42,6 +42,10 @@ DS = struct("DS", [size("x", 2), reserved(6), array("x", 8)])  # dynamic size (d
 DSC = struct("DSC", [count("x", 8), array("x", 16)])
 US = struct("US", [array("x", 8)])                             # unknown size
 TLV = struct("TLV", [scalar("t", 8), size("v", 8), array("v", 8)])
+SP = struct("SP", [scalar("t", 8), size("_payload_", 8), payload()])          # dynamic through a sized payload
+DBASE = struct("DBase", [scalar("k", 8), size("_payload_", 8), payload()])
+DCHILD = struct("DChild", [scalar("h", 16)], parent="DBase", cons=[cons("k", 1)])   # derived struct as element
+OS = struct("OS", [scalar("f", 1), reserved(7), scalar("v", 16, cond=("f", 1))])   # dynamic through an optional field
 
 
 def _bf_field(kind, w, i):
@@ -100,6 +104,24 @@ def bitfield_descs(tier):
     return out
 
 
+def chunk_descs(tier):
+    """every bit-field kind alone in a whole-octet chunk, as the first, a middle and the last chunk of a packet"""
+    out = []
+    kinds = [("scalar", lambda w: [scalar("k", w)], []), ("reserved", lambda w: [reserved(w)], []),
+             ("fixed", lambda w: [fixed(0xa5 if w == 8 else 0xa55a, w)], []),
+             ("fixedenum", lambda w: [fixedenum("B", "E8" if w == 8 else "E16")], [E8, E16]),
+             ("enum", lambda w: [typedef("k", "E8" if w == 8 else "E16")], [E8, E16]),
+             ("size", lambda w: [size("z", w)], []), ("count", lambda w: [count("z", w)], [])]
+    for (kn, mk, decls) in kinds:
+        for pos in ("first", "mid", "last"):
+            w = 16 if pos == "mid" else 8
+            before = [] if pos == "first" else [scalar("a", 8)]
+            after = [] if pos == "last" else [scalar("b", 8)]
+            tail = [array("z", 8)] if kn in ("size", "count") else []
+            out.append(desc("little", decls + [packet("P", before + mk(w) + after + tail)], name="chunk_%s_%s" % (kn, pos)))
+    return out
+
+
 def enum_descs(tier):
     out = []
     for e in (E8, E3, E16, E24, E64, EOPEN, ERNG, ERNGO, ECOMP, ECOMPR):
@@ -149,11 +171,12 @@ def array_descs(tier):
     out = []
     elems = [("u8", 8, []), ("u16", 16, []), ("u24", 24, []), ("u64", 64, []), ("e8", "E8", [E8]),
              ("e16", "E16", [E16]), ("e24", "E24", [E24]), ("ss", "SS", [SS]), ("ss3", "SS3", [E8, SS3]),
-             ("ds", "DS", [DS]), ("dsc", "DSC", [DSC]), ("us", "US", [US])]
+             ("ds", "DS", [DS]), ("dsc", "DSC", [DSC]), ("us", "US", [US]),
+             ("sp", "SP", [SP]), ("dch", "DChild", [DBASE, DCHILD]), ("os", "OS", [OS])]
     shapes = ["c0", "c1", "c3", "cnt", "siz", "unk"]
     for (en, el, decls) in elems:
         for sh in shapes:
-            if tier == "quick" and en in ("u24", "e24", "dsc") and sh in ("c0", "c1"):
+            if tier == "quick" and en in ("u24", "e24", "dsc", "sp", "dch", "os") and sh in ("c0", "c1"):
                 continue
             if sh == "c0":
                 fs = [scalar("h", 8), array("x", el, count=0), scalar("t", 8)]
@@ -340,6 +363,14 @@ def inherit_descs(tier):
                                packet("Child3", [scalar("x", 8), payload()], parent="Parent", cons=[cons("a", 2)]),
                                packet("GrandChild", [scalar("y", 16)], parent="Child3", cons=[cons("x", 7)])],
                     name="inh_size_and_payload_sibling"))
+    # constraint tuples: children with two constraints that agree on the first and differ in the second, on the
+    # second only, and a child with one constraint that a two-constraint sibling shares
+    out.append(desc("little", [E8, packet("Cmd", [scalar("op", 8), typedef("kind", "E8"), payload()]),
+                               packet("ReadA", [scalar("x", 8)], parent="Cmd", cons=[cons("op", 1), cons("kind", "A")]),
+                               packet("ReadB", [scalar("y", 8)], parent="Cmd", cons=[cons("op", 1), cons("kind", "B")]),
+                               packet("WriteA", [scalar("z", 8)], parent="Cmd", cons=[cons("op", 2), cons("kind", "A")]),
+                               packet("AnyC", [array("w", 8)], parent="Cmd", cons=[cons("kind", "C")])],
+                    name="inh_cons_tuples"))
     # optional fields of non-native width under a sized payload / inside a sized array of structs
     out.append(desc("little", [packet("Parent", [size("_payload_", 8), payload(), scalar("trailer", 8)]),
                                packet("Child", [scalar("c", 1), reserved(7), scalar("x", 24, cond=("c", 1))], parent="Parent")],
@@ -361,6 +392,20 @@ def group_descs(tier):
     out.append(desc("little", [groupdecl("In", [scalar("a", 4), scalar("b", 4)]),
                                groupdecl("Out", [group("In", [cons("a", 3)]), scalar("c", 8)]),
                                packet("P", [group("Out", [cons("c", 9)]), scalar("t", 8)])], name="grp_nested"))
+    # instantiation matrix: one group used by several declarations with no, scalar and enum constraints,
+    # the same field bound to different values / tags, directly and through an outer group
+    out.append(desc("little", [E8, groupdecl("G", [typedef("k", "E8"), scalar("n", 8)]),
+                               packet("A", [group("G", [cons("k", "A")]), scalar("t", 8)]),
+                               packet("B", [group("G", [cons("k", "B")]), scalar("t", 8)]),
+                               packet("C", [group("G", [cons("n", 1)])]),
+                               packet("D", [group("G", [cons("n", 2)])]),
+                               packet("F", [group("G", [cons("k", "C"), cons("n", 2)])]),
+                               packet("N", [scalar("h", 8), group("G")])], name="grp_matrix"))
+    out.append(desc("little", [E8, groupdecl("In", [typedef("k", "E8"), scalar("n", 8)]),
+                               groupdecl("Out", [scalar("o", 8), group("In")]),
+                               packet("A", [group("Out", [cons("k", "A")])]),
+                               packet("B", [group("Out", [cons("k", "B"), cons("o", 5)])]),
+                               struct("S", [group("Out", [cons("n", 7), cons("o", 5)])])], name="grp_matrix_nested"))
     return out
 
 
@@ -456,7 +501,7 @@ def syntax_descs(tier):
 def build(tier="quick"):
     ds = []
     for f in (bitfield_descs, enum_descs, array_descs, payload_descs, optional_descs, struct_descs, custom_descs,
-              inherit_descs, group_descs):
+              inherit_descs, group_descs, chunk_descs):
         ds += f(tier)
     names = set()
     for d in ds:
